@@ -546,7 +546,6 @@ func (m *UDPMuxDefault) registerConnForAddress(conn *udpMuxedConn, addr netip.Ad
 		return
 	}
 
-	verifhook.Yield("udpmux.registerConnForAddress.beforeLock")
 	m.addressMapMu.Lock()
 	defer m.addressMapMu.Unlock()
 
